@@ -1,5 +1,6 @@
 //! C13 Revealing is total: any hidden octets, secret and random vector give Ok or Err.
 
+use super::common::*;
 use super::*;
 use crate::exec::{self, Out};
 use crate::gen::val;
@@ -35,6 +36,7 @@ fn floors(t: Tier) -> Vec<(String, u64)> {
         ("guard.length_lt6".into(), 1000),
         ("guard.length_exceeds_value".into(), 1000),
         ("guard.length_fits_exactly".into(), 500),
+        ("thread_env.teardown_calls".into(), 500),
     ]
 }
 
@@ -100,7 +102,13 @@ pub fn judge(ctx: &mut Ctx, attr: u16, value: &[u8], secret: &[u8], rv: [u8; 4],
     // the value vector has exact capacity in half of the cases and spare capacity in the others:
     // only its length may matter
     let hv = if (value.len() + secret.len()) % 2 == 0 { exec::hidden_exact(attr, value) } else { exec::hidden_spare(attr, value, 16 * (1 + value.len() % 5)) };
-    match exec::reveal(hv, secret, rv) {
+    let direct = exec::reveal(hv, secret, rv);
+    // the same call on a fresh thread, in its body and while the thread is torn down
+    if ctx.tier != Tier::Miri && !direct.abnormal() && value.len() <= 4096 && secret.len() <= 4096 && ctx.rng.chance(1, 48) {
+        let (v, s) = (value.to_vec(), secret.to_vec());
+        thread_env_check(ctx, "C13", &direct, move || exec::reveal(exec::hidden_exact(attr, &v), &s, rv), wit.clone());
+    }
+    match direct {
         Out::Ok(a) => {
             ctx.rep.bucket("reveal.ok");
             if must_err {
